@@ -34,7 +34,8 @@ FAMILY = {
                 sweep=(24, 200), sweep_uninstall=True, extra_gen=["MC_GenLedgerLong.cfg"], gen_depth=1200,
                 enum=["MC_EnumLedger.cfg"], enum_thorough=["MC_EnumLedger4.cfg"]),
     "C02": dict(mc="MC_Cluster", gen="MC_GenCluster", quick=300, thorough=3000, drivers=["secret", "memory", "configmap"],
-                extra_gen=["MC_GenClusterRetry.cfg", "MC_GenLedgerLong.cfg"], gen_split=True, gen_depth=1200),
+                extra_gen=["MC_GenClusterRetry.cfg", "MC_GenLedgerLong.cfg"], gen_split=True, gen_depth=1200,
+                enum=["MC_EnumCluster.cfg"]),
     "C03": dict(mc="MC_Fault", gen="MC_GenFault", quick=200, thorough=2000, drivers=["secret", "configmap", "memory"],
                 sweep=(40, 400)),
     "C06": dict(mc="MC_Dry", gen="MC_GenDry", quick=200, thorough=2000, drivers=["secret", "memory", "configmap"], cli=2,
